@@ -13,7 +13,7 @@ from xv.oracles import storespec as SP
 Wm.install()
 
 SLOTS = ["a.ics", "b.ics", "c.vcf"]
-FRESH = ["n.ics", "n.vcf", "n.txt"]
+FRESH = ["n.ics", "n.vcf", "n.txt", ".h.ics"]  # incl. a dot-prefixed member name (listed like any other)
 PATH = "/srv/root/col"
 OTHER = "/srv/root/other"
 OTHER_STATE = {"o.ics": b"xo"}
